@@ -271,7 +271,7 @@ def project(path):
             if n == 'std::mem::forget' and len(a) >= 1:
                 add('FORGET', ev, val=a[-1])
                 continue
-            if n == 'std::mem::ManuallyDrop::new' and len(a) == 1 and not any(
+            if n == 'std::mem::ManuallyDrop::new' and len(a) == 1 and path.body.key.startswith('pointer::') and not any(
                     x.kind == 'call' and x.name in ('std::mem::ManuallyDrop::drop', 'std::mem::ManuallyDrop::into_inner', 'std::mem::ManuallyDrop::take')
                     for x in path.events):
                 # `let d = ManuallyDrop::new(d)`: the value is never dropped by this function - `forget(d)` that keeps the bits usable
